@@ -96,6 +96,19 @@ def directed_cases(tier):
         if k:
             ops += [b("B"), {"tamper": "add-file", "ws": "B", "pick": 0}, b("B")]
         out.append({"model": model, "ops": ops, "meta": {"VERIFKEY": "d%d" % k}, "directed": "shared package returns to an installed Build-Id"})
+    # the content of a tool changes but the step that uses it produces the very same result again:
+    # its trail must name the new tool all the same
+    gen = projgen._leaf(rng); gen["src"] = "import"; gen["provideTools"] = {"tool_gen": {"path": "sub", "libs": []}}
+    user = projgen._leaf(rng)
+    user["depends"] = [{"name": "gen", "use": ["tools"]}]
+    user["buildTools"] = ["tool_gen"]
+    root = projgen._leaf(rng); root["depends"] = [{"name": "user", "use": ["result", "deps"]}]
+    model = {"recipes": {"root": root, "user": user, "gen": gen}, "classes": {}, "default_env": {},
+             "sources": {"src/gen/f0.txt": "gen-file0\n"}, "order": ["root", "user", "gen"], "features": ["directed-identical-rerun"]}
+    b = lambda: {"ws": "A", "upload": False, "download": "no", "jobs": 1, "seed": rng.getrandbits(32), "shared": False}
+    out.append({"model": model, "ops": [b(), {"edit": {"kind": "src_modify", "path": "src/gen/f0.txt", "content": "mod-1\n", "same_size": False}}, b(),
+                                        {"edit": {"kind": "src_add", "path": "src/gen/n1.txt", "content": "new\n"}}, b()],
+                "meta": {"VERIFKEY": "t0"}, "directed": "tool content changes, user re-runs with an identical result"})
     # an invocation without audit trail in the middle of a history
     for k in range(2):
         model = projgen.gen_valid_project(rng, nmin=3, nmax=4, features={"import", "diamond", "vars"})
@@ -260,8 +273,15 @@ def _verify_workspace(proj, info, executed, meta, stats, provenance_seen, may_mi
             if label == "src":
                 if art["build-id"] != art["result-hash"]:
                     return "%s: checkout build-id differs from result-hash" % where
-            elif s.get("bid") is not None and art["build-id"] != s["bid"]:
+            elif s.get("bid") is not None and art["build-id"] != s["bid"] and \
+                    (os.path.dirname(s["ws"]) in executed or s.get("prov") in ("downloaded", "shared")):
+                # (a step that was *skipped* keeps the trail of the execution that produced its workspace:
+                # Bob skips on unchanged input hashes, so when something upstream was rebuilt with an
+                # identical result the step's Build-Id moves on while content and trail stay those of
+                # the earlier execution -- counted as a probe below, not as a violation)
                 return "%s: build-id %s recorded, recomputed from the recorded sources %s" % (where, art["build-id"][:12], s["bid"][:12])
+            if label != "src" and s.get("bid") is not None and art["build-id"] != s["bid"]:
+                stats.inc("probe_skipped_step_keeps_trail_of_earlier_build_id")
             m = art["meta"]
             exp = {"recipe": ent["recipe"], "step": label, "language": "bash"}
             for k, v in exp.items():
